@@ -16,10 +16,10 @@ open Spec
 /-- decimal representation, as `"%s" % n` / `str(n)` prints it -/
 def dec (n : Nat) : Text := (toString n).toList
 
-theorem dec_ok (n : Nat) (hn : n ∈ supported) : DigStr (dec n) ∧ intOf (dec n) = n := by
+theorem dec_ok (n : Nat) (hn : n ∈ supported) : DigStr (dec n) ∧ intVal (dec n) = n ∧ (dec n).length ≤ 2 := by
   simp only [supported, List.mem_cons, List.mem_nil_iff, or_false] at hn
   rcases hn with rfl|rfl|rfl|rfl|rfl|rfl|rfl|rfl|rfl|rfl|rfl|rfl|rfl|rfl|rfl|rfl|rfl|rfl|rfl|rfl|rfl|rfl|rfl|rfl|rfl <;>
-  (simp [dec, toString, Nat.repr, Nat.toDigits, Nat.toDigitsCore, Nat.digitChar, DigStr, intOf]; try decide)
+  (simp [dec, toString, Nat.repr, Nat.toDigits, Nat.toDigitsCore, Nat.digitChar, DigStr, intVal]; try decide)
 
 theorem digitVal_of_isDigit {c : Char} (h : isDigit c = true) : Spec.digitVal c = some (c.toNat - 48) := by
   simp only [isDigit, Bool.and_eq_true, decide_eq_true_eq] at h
@@ -50,21 +50,21 @@ theorem feed_digits (p : Text) (hd : ∀ x ∈ p, isDigit x = true) (c : Char) (
     simp
 
 theorem feed_digStr {p : Text} (hp : DigStr p) (done : List Nat) (g : Eff) (X : Text) :
-    feed (.csi done none) g (p ++ X) = feed (.csi done (some (intOf p))) g X := by
+    feed (.csi done none) g (p ++ X) = feed (.csi done (some (intVal p))) g X := by
   obtain ⟨hne, hd⟩ := hp
   cases p with
   | nil => exact absurd rfl hne
   | cons c p =>
     rw [feed_digits p (fun x hx => hd x (by simp [hx])) c (hd c (by simp))]
-    simp [intOf]
+    simp [intVal]
 
 /-- The parameter values a terminal (and `token_type`) reads from `ESC [ p1;..;pn m`: none = one zero. -/
 def sgrValues (ps : List Nat) : List Nat := if ps = [] then [0] else ps
 
 theorem feed_params (ps : List Text) (hps : ∀ p ∈ ps, DigStr p) (done : List Nat) (g : Eff) (rest : Text) :
     feed (.csi done none) g (joinSemi ps ++ 'm' :: rest) =
-      (feed .ground (applySgrs (done ++ sgrValues (ps.map intOf)) g).1 rest).addCtls
-        (applySgrs (done ++ sgrValues (ps.map intOf)) g).2 := by
+      (feed .ground (applySgrs (done ++ sgrValues (ps.map intVal)) g).1 rest).addCtls
+        (applySgrs (done ++ sgrValues (ps.map intVal)) g).2 := by
   induction ps generalizing done with
   | nil =>
     simp only [joinSemi, List.nil_append, feed, digitVal_m]
@@ -84,10 +84,10 @@ theorem feed_params (ps : List Text) (hps : ∀ p ∈ ps, DigStr p) (done : List
       simp [sgrValues]
 
 theorem feed_sgrSeq (ps : List Text) (hps : ∀ p ∈ ps, DigStr p) (g : Eff) (rest : Text) :
-    (feed .ground g (csiSeq ps [] 'm' ++ rest)).cells =
-      (feed .ground (applySgrs (sgrValues (ps.map intOf)) g).1 rest).cells := by
-  have e : csiSeq ps [] 'm' ++ rest = Spec.ESC :: ('[' :: (joinSemi ps ++ 'm' :: rest)) := by
-    simp [csiSeq, Curtsies.ESC, Spec.ESC]
+    (feed .ground g (csiSeq false ps [] 'm' ++ rest)).cells =
+      (feed .ground (applySgrs (sgrValues (ps.map intVal)) g).1 rest).cells := by
+  have e : csiSeq false ps [] 'm' ++ rest = Spec.ESC :: ('[' :: (joinSemi ps ++ 'm' :: rest)) := by
+    simp [csiSeq, csiIntro, Curtsies.ESC, Spec.ESC]
   rw [e]
   simp only [feed, if_true]
   rw [feed_params ps hps]
@@ -136,25 +136,30 @@ theorem sgrValues_supported {ps : List Nat} (h : ∀ n ∈ ps, n ∈ supported) 
 theorem sgrValues_ne (ps : List Nat) : sgrValues ps ≠ [] := by
   unfold sgrValues; split <;> simp [*]
 
-theorem map_intOf_dec {ps : List Nat} (h : ∀ n ∈ ps, n ∈ supported) : (ps.map dec).map intOf = ps := by
+theorem map_intVal_dec {ps : List Nat} (h : ∀ n ∈ ps, n ∈ supported) : (ps.map dec).map intVal = ps := by
   induction ps with
   | nil => rfl
   | cons n ns ih =>
-    simp only [List.map_cons, (dec_ok n (h n (by simp))).2]
+    simp only [List.map_cons, (dec_ok n (h n (by simp))).2.1]
     rw [ih (fun m hm => h m (by simp [hm]))]
 
-/-- `token_type` on the token of `ESC [ p1;..;pn m` with supported parameters. -/
-theorem tokenItems_sgr {ps : List Nat} (h : ∀ n ∈ ps, n ∈ supported) :
-    tokenItems (some (csiToken (ps.map dec) [] 'm')) =
-      .ok (((sgrValues ps).flatMap fun n => updsOfValue (.int n)).map .upd) := by
-  have hvals : valuesOf (if ps.map dec = [] then .raw [] else .ints ((ps.map dec).map intOf)) =
-      (sgrValues ps).map .int := by
-    rw [map_intOf_dec h]
+/-- `token_type` on the token of `ESC [ p1;..;pn m` whose parameters (digit strings, leading zeros allowed)
+    have supported values. -/
+theorem tokenItems_sgr {ps : List Text} (h : ∀ p ∈ ps, intVal p ∈ supported) :
+    tokenItems (some { rawToken false ps [] 'm' with
+        numbers := some (if ps = [] then Numbers.raw [] else Numbers.ints (ps.map intVal)) }) =
+      .ok (((sgrValues (ps.map intVal)).flatMap fun n => updsOfValue (.int n)).map .upd) := by
+  have hsup : ∀ n ∈ ps.map intVal, n ∈ supported := by
+    intro n hn
+    obtain ⟨p, hp, rfl⟩ := List.mem_map.mp hn
+    exact h p hp
+  have hvals : valuesOf (if ps = [] then Numbers.raw [] else Numbers.ints (ps.map intVal)) =
+      (sgrValues (ps.map intVal)).map .int := by
     cases ps <;> simp [valuesOf, sgrValues]
-  have hne : ((sgrValues ps).flatMap fun n => updsOfValue (.int n)) ≠ [] := by
-    have hs := sgrValues_supported h
-    have := sgrValues_ne ps
-    cases hsv : sgrValues ps with
+  have hne : ((sgrValues (ps.map intVal)).flatMap fun n => updsOfValue (.int n)) ≠ [] := by
+    have hs := sgrValues_supported hsup
+    have := sgrValues_ne (ps.map intVal)
+    cases hsv : sgrValues (ps.map intVal) with
     | nil => exact absurd hsv this
     | cons v vs =>
       rw [hsv] at hs
@@ -162,10 +167,9 @@ theorem tokenItems_sgr {ps : List Nat} (h : ∀ n ∈ ps, n ∈ supported) :
       simp only [List.flatMap_cons]
       intro h0
       exact this (List.append_eq_nil_iff.mp h0).1
-  simp only [tokenItems, tokenType, csiToken, if_true, hvals, List.flatMap_map]
-  cases hl : ((sgrValues ps).flatMap fun n => updsOfValue (.int n)) with
+  simp only [tokenItems, tokenType, rawToken, if_true, hvals, List.flatMap_map]
+  cases hl : ((sgrValues (ps.map intVal)).flatMap fun n => updsOfValue (.int n)) with
   | nil => exact absurd hl hne
   | cons u us => simp
-
 
 end Curtsies
